@@ -15,6 +15,7 @@ pub mod c14;
 pub mod c15;
 pub mod c16;
 pub mod c17;
+pub mod c18;
 pub mod c19;
 pub mod common;
 pub mod replay;
@@ -38,6 +39,7 @@ pub fn run(p: &str, thorough: bool, rest: &[String]) {
         "C15" => c15::run(thorough),
         "C16" => c16::run(thorough, rest),
         "C17" => c17::run(thorough),
+        "C18" => c18::run(thorough),
         "C19" => c19::run(thorough),
         _ => {
             eprintln!("unknown property {}", p);
